@@ -70,11 +70,11 @@ Inductive rc_args :=
 | RCChoices (items : list (option Z * Z))      (* - choice: {probability: p, pick: o}    *)
 | RCDict (items : list (Z * Z)).               (* {o: weight, ...}  as (label, weight)   *)
 
-(* choice(pick, probability): `return probability or when, pick` with when = None:
-   an absent probability and a probability equal to 0 both give the weight None *)
+(* choice(pick, probability): `if probability is not None: return parse_weight_str(...), pick`
+   else `return when, pick` with when = None: only an absent probability gives the weight None *)
 Definition choice_weight (p : option Z) : option Z :=
   match p with
-  | Some w => if w =? 0 then None else Some w
+  | Some w => Some w
   | None => None
   end.
 
@@ -234,11 +234,15 @@ Definition parse_datetimespec (c : clock) (sp : spec) : result stamp :=
   | SBad => Err (Internal "ParserError")
   end.
 
-(* template_funcs.py:124-154 with a datetimespec and the default timezone:
-   dt.replace(tzinfo=utc) keeps the wall clock reading and discards the offset *)
+(* template_funcs.py:124-157 with a datetimespec and the default timezone (UTC):
+   parse_datetimespec always returns an aware value, so the branch taken is
+   dt.astimezone(utc): the instant is kept, the reading is converted to UTC *)
 Definition datetime_fn (c : clock) (sp : spec) : result stamp :=
   do s <- parse_datetimespec c sp;
-  Ok (mkStamp (wall s) (Some 0)).
+  Ok (match off s with
+      | None => mkStamp (wall s) (Some 0)          (* dt.replace(tzinfo=utc); not reached *)
+      | Some _ => mkStamp (instant s) (Some 0)
+      end).
 
 Definition floor_sec (us : Z) : Z := us / US.
 
@@ -249,20 +253,28 @@ Definition faker_dt_between (a b num den : Z) : Z :=
   if b - a <=? 1 then rhe ((a * den + num) * US) den
   else rhe ((a * den + (b - a) * num) * US) den.
 
-(* template_funcs.py:177-189; tz = offset (seconds) of the result's presentation zone,
-   None for timezone: False.  Result: (instant in microseconds, presentation offset) *)
+(* min(max(rc, start), end) on datetimes: max returns rc unless start > rc, min returns that
+   unless end is smaller; a clamped result is the bound itself (presented in UTC) *)
+Definition clamp (rc lo hi : Z) (tz : option Z) : Z * option Z :=
+  if rc <? lo then (if hi <? lo then (hi, Some 0) else (lo, Some 0))
+  else if hi <? rc then (hi, Some 0)
+  else (rc, tz).
+
+(* template_funcs.py:180-194; tz = offset (seconds) of the result's presentation zone,
+   None for timezone: False.  Result: (instant in microseconds, presentation offset).
+   With timezone: False Faker returns a naive datetime, and comparing it with the aware
+   bounds in min/max raises TypeError (after the draw). *)
 Definition datetime_between (c : clock) (s e : spec) (tz : option Z) (d : option Z) (den : Z)
   : result (Z * option Z) :=
   do s' <- datetime_fn c s;
   do e' <- datetime_fn c e;
   if instant e' <? instant s' then Err (DGE "End date is before start date")
   else draw_below d den (fun num =>
-         Ok (faker_dt_between (floor_sec (instant s')) (floor_sec (instant e')) num den, tz)).
-
-(* the interval the code can produce, in microseconds *)
-Definition dt_coded_lo (s' : stamp) : Z := floor_sec (instant s') * US.
-Definition dt_coded_hi (s' e' : stamp) : Z :=
-  Z.max (floor_sec (instant e')) (floor_sec (instant s') + 1) * US.
+         let rc := faker_dt_between (floor_sec (instant s')) (floor_sec (instant e')) num den in
+         match tz with
+         | None => type_error
+         | Some _ => Ok (clamp rc (instant s') (instant e') tz)
+         end).
 
 (* ------------------------------------------------------------------ correspondence cases *)
 
@@ -331,8 +343,13 @@ Definition possible (f : fn) (v : value) : bool :=
   | FDateTime c s e tz, VDT us o =>
     match datetime_fn c s, datetime_fn c e with
     | Ok s', Ok e' =>
-      (instant s' <=? instant e') && option_eqb Z.eqb o tz &&
-      (dt_coded_lo s' <=? us) && (us <=? dt_coded_hi s' e')
+      match tz with
+      | None => false                               (* always an error *)
+      | Some _ =>
+        (instant s' <=? us) && (us <=? instant e') &&
+        (option_eqb Z.eqb o tz ||
+         (option_eqb Z.eqb o (Some 0) && ((us =? instant s') || (us =? instant e'))))
+      end
     | _, _ => false
     end
   | _, _ => false
